@@ -44,7 +44,8 @@ ASSUMPTIONS = [
 ]
 
 KEY_KIND = {'C09': ('remove_node', 'regenerate', 'add_node', 'remove_attacker'),
-            'C10': ('saveload',), 'C11': ('remove_attacker', 'compromise', 'undo', 'attach'),
+            'C10': ('saveload',), 'C11': ('remove_attacker', 'compromise', 'undo', 'attach',
+                                          'add_attackers_late'),
             'C12': ('surface_update',), 'C13': ('prune',), 'C14': ('copy',)}
 
 TTCS = [None, None, {'type': 'function', 'name': 'Enabled', 'arguments': []},
@@ -61,14 +62,16 @@ def _weights(prop, rng):
     w = {'new_generated': 2, 'new_hand': 2, 'add_node': 4, 'link': 6, 'remove_node': 3,
          'attach': 2, 'add_attacker': 3, 'remove_attacker': 2, 'compromise': 6, 'undo': 3,
          'analyse': 2, 'relabel': 3, 'prune': 1, 'copy': 1, 'saveload': 1, 'regenerate': 1,
-         'model_edit': 1, 'surface_query': 0, 'surface_update': 0, 'edit_inplace': 0,
+         'model_edit': 1, 'add_attackers_late': 0, 'surface_query': 0, 'surface_update': 0, 'edit_inplace': 0,
          'defense_query': 0}
     if prop == 'C09':
         w.update(remove_node=5, regenerate=2, add_node=5, copy=1, saveload=1)
     elif prop == 'C10':
-        w.update(saveload=5, attach=3, analyse=3, prune=2, edit_inplace=2, add_attacker=4)
+        w.update(saveload=5, attach=3, analyse=3, prune=2, edit_inplace=2, add_attacker=4,
+                 model_edit=2)
     elif prop == 'C11':
-        w.update(compromise=10, undo=6, remove_attacker=5, attach=4, add_attacker=5, remove_node=2)
+        w.update(compromise=10, undo=6, remove_attacker=5, attach=4, add_attacker=5, remove_node=2,
+                 add_attackers_late=2, new_generated=3)
     elif prop == 'C12':
         w.update(surface_query=6, surface_update=8, compromise=4, relabel=6, analyse=2,
                  defense_query=2, prune=0, regenerate=0, saveload=0, copy=0, remove_node=1)
@@ -298,7 +301,16 @@ class GraphWorld(BaseWorld):
 
     # ---------------------------------------------------------------- oracles
     def check_structure(self, slot, where):
-        """C09 invariants on the real objects + C11 symmetry."""
+        """C09 invariants on the real objects + C11 symmetry.  The family the
+        check is about goes first, so that it is the one reported."""
+        if self.prop == 'C11':
+            self._chk_c11(slot, where)
+            self._chk_c09(slot, where)
+        else:
+            self._chk_c09(slot, where)
+            self._chk_c11(slot, where)
+
+    def _chk_c09(self, slot, where):
         g = slot.g
         self.count('oracle:C09.refs')
         members = {id(n) for n in g.nodes}
@@ -376,6 +388,8 @@ class GraphWorld(BaseWorld):
                 if id(a) not in amembers:
                     self.fail('C09.attackers', f'after {where}: node {n.full_name} is compromised '
                                                f'by attacker {a.name!r} that is not in the graph')
+    def _chk_c11(self, slot, where):
+        g = slot.g
         self.count('oracle:C11.symmetric')
         for a in g.attackers:
             for n in a.reached_attack_steps:
@@ -551,8 +565,21 @@ class GraphWorld(BaseWorld):
                 name = 'a%d' % self.ah
         reached = rng.sample(s.ref.order, min(len(s.ref.order), rng.choice([0, 1, 2, 3, 5])))
         entry = [h for h in reached if rng.random() < 0.7]
+        bad = None
+        if reached and rng.random() < 0.15 and not self.guard('add_attacker_unknown_node'):
+            bad = rng.choice(['reached', 'entry'])
         return {'op': 'add_attacker', 'g': gi, 'k': self.new_ah(), 'name': name, 'id': kid,
-                'reached': reached, 'entry': entry}
+                'reached': reached, 'entry': entry, 'bad_then_retry': bad}
+
+    def gen_add_attackers_late(self, rng, gi):
+        s = self.slots[gi]
+        if len(s.ref.attacker_order) >= 3 or not s.ref.order:
+            return None
+        nodes = rng.sample(s.ref.order, min(len(s.ref.order), rng.choice([1, 2, 3])))
+        ks = [self.new_ah(), self.new_ah()]
+        return {'op': 'add_attackers_late', 'g': gi, 'ks': ks,
+                'names': [f'late{ks[0]}', f'late{ks[1]}'], 'nodes': nodes,
+                'second_on': [h for h in nodes if rng.random() < 0.7]}
 
     def gen_remove_attacker(self, rng, gi):
         s = self.slots[gi]
@@ -637,11 +664,20 @@ class GraphWorld(BaseWorld):
         # generate and a regenerate
         if not any(self.slots[i].kind == 'generated' for i in self.live_slots()):
             return None
+        mref = self.mref
+        if mref.order and rng.random() < 0.4:
+            h = rng.choice(mref.order)
+            ra = mref.assets[h]
+            return {'op': 'model_edit', 'mops': [
+                {'op': 'remove_asset', 'h': h, 'm': 0},
+                {'op': 'add_asset', 'h': self.mw.new_handle('a'), 'type': ra.type, 'name': ra.name,
+                 'id': ra.id, 'allow_dup': True, 'defenses': dict(ra.defenses), 'ctor': True,
+                 'extras': None, 'm': 0}], 'kind': 'replace'}
         sub = random.Random(rng.random())
         mop = self.mw.gen_op(sub)
         if mop is None:
             return None
-        return {'op': 'model_edit', 'mop': mop}
+        return {'op': 'model_edit', 'mops': [mop]}
 
     def gen_surface_query(self, rng, gi):
         s = self.slots[gi]
@@ -852,10 +888,24 @@ class GraphWorld(BaseWorld):
                     if fn in by_full and by_full[fn] not in ra.reached:
                         ra.reached.append(by_full[fn])
             ra.entry = list(ra.reached)
+            rid = {id(n): h for h, n in s.nmap.items()}
+            for label, real_list, exp_list in (('reached steps', real.reached_attack_steps, ra.reached),
+                                               ('entry points', real.entry_points, ra.entry)):
+                got = [rid.get(id(n)) for n in real_list]
+                if None in got:
+                    self.fail('C11.attach', f'{where}: {label} of attacker {ma.name!r} contain a '
+                                            f'node that is not a node of this graph')
+                if sorted(got) != sorted(exp_list):
+                    self.fail('C11.attach', f'{where}: {label} of attacker {ma.name!r} are '
+                                            f'{sorted(s.ref.nodes[h].full_name for h in got)}, the '
+                                            f'model entry points name '
+                                            f'{sorted(s.ref.nodes[h].full_name for h in exp_list)}')
             s.ref.add_attacker(ra)
             s.amap[k] = real
         if before:
             self.count('probe:attached_twice')
+        if sum(1 for i in self.live_slots() if self.slots[i].ref.has_model) >= 2:
+            self.count('probe:attach_with_several_graphs_on_model')
         self._touch(s)
         self.check_all(where, only=op['g'])
         return 'ok'
@@ -875,8 +925,19 @@ class GraphWorld(BaseWorld):
               'reached_attack_steps': [s.ref.nodes[h].id for h in reached]}
         if kid is not None:
             kw['attacker_id'] = kid
-        o = call(s.g.add_attacker, att, **kw)
         where = f'add_attacker({op["name"]!r}, id={kid}, reached={kw["reached_attack_steps"]})'
+        if op.get('bad_then_retry') and not in_use:
+            # a refused call (unknown node id after valid ones), then the same attacker
+            # object is offered again with the corrected lists
+            badkw = {k_: list(v) if isinstance(v, list) else v for k_, v in kw.items()}
+            key = 'reached_attack_steps' if op['bad_then_retry'] == 'reached' else 'entry_points'
+            badkw[key] = list(badkw[key]) + [987654]
+            o = call(s.g.add_attacker, att, **badkw)
+            self.count('fault:rejected_attacker_unknown_node')
+            if not o.raised:
+                self.fail('C09.attackers', f'{where} with an unknown node id was accepted')
+            self.check_all(where + ' [unknown node id, refused]', only=op['g'])
+        o = call(s.g.add_attacker, att, **kw)
         if in_use:
             self.count('fault:rejected_attacker_id_in_use')
             if not o.raised:
@@ -898,6 +959,44 @@ class GraphWorld(BaseWorld):
             self.count('probe:attacker_id0_not_first')
         if op['name'] in [a.name for a in s.ref.attackers.values() if a.h != k]:
             self.count('probe:same_name_attackers')
+        self._touch(s)
+        self.check_all(where, only=op['g'])
+        return 'ok'
+
+    def do_add_attackers_late(self, op):
+        """Two attackers act on nodes before they are registered with the graph
+        (the way the repository's tests use Attacker), then both are added."""
+        s = self.slot(op['g'])
+        ks = op['ks']
+        if any(k in s.amap or k in s.ref.attackers for k in ks):
+            raise Unresolvable()
+        nodes = [h for h in op['nodes'] if h in s.nmap]
+        if not nodes:
+            raise Unresolvable()
+        second = [h for h in op.get('second_on', []) if h in nodes]
+        atts = [self.Attacker(name=n, entry_points=[], reached_attack_steps=[]) for n in op['names']]
+        where = f'two unregistered attackers compromise {len(nodes)}/{len(second)} nodes, then add_attacker x2'
+        for h in nodes:
+            o = call(atts[0].compromise, s.nmap[h])
+            if o.raised:
+                self.fail('C11.must_not_raise', f'{where}: compromise raised {o.exc!r}')
+        for h in second:
+            o = call(s.nmap[h].compromise, atts[1])
+            if o.raised:
+                self.fail('C11.must_not_raise', f'{where}: compromise raised {o.exc!r}')
+        used = {a.id for a in s.ref.attackers.values()}
+        for att, k, reached in ((atts[0], ks[0], nodes), (atts[1], ks[1], second)):
+            o = call(s.g.add_attacker, att)
+            if o.raised:
+                self.fail('C09.must_not_raise', f'{where}: add_attacker raised {o.exc!r}')
+            if not isinstance(att.id, int) or att.id in used:
+                self.fail('C09.index', f'{where}: attacker got id {att.id!r}')
+            used.add(att.id)
+            ra = RAttacker(k, att.name, att.id)
+            ra.reached = list(reached)
+            s.ref.add_attacker(ra)
+            s.amap[k] = att
+        self.count('probe:unregistered_attackers_compromised_first')
         self._touch(s)
         self.check_all(where, only=op['g'])
         return 'ok'
@@ -1290,11 +1389,18 @@ class GraphWorld(BaseWorld):
         return 'ok'
 
     def do_model_edit(self, op):
-        try:
-            self.mw.apply(op['mop'])
-        except Unresolvable:
-            raise
+        done = 0
+        for mop in op.get('mops') or [op['mop']]:
+            try:
+                self.mw.apply(mop)
+                done += 1
+            except Unresolvable:
+                continue
+        if not done:
+            raise Unresolvable()
         self.count('probe:model_edited_between_generations')
+        if op.get('kind') == 'replace':
+            self.count('probe:model_asset_replaced_same_name')
         self.state_changes += 1
         return 'ok'
 
